@@ -391,9 +391,19 @@ def eval_case(case, seed, thorough):
                 ep2 = tcpcap.Endpoints(f.ep.cmac, f.ep.smac, frng.randbytes(len(f.ep.cip)), f.ep.sip, frng.randrange(1024, 65536), f.ep.sport, 0, 0)
                 frame = scene.udp_frame(ep2, "s" if fromsrv else "c", pl)
                 where = f"{'from' if fromsrv else 'to'} the server address of {f.label} (unknown peer)"
+            elif k % 4 == 3:
+                # between two hosts nobody knows, on ports no list names - but one of the two port numbers is the ephemeral client port of one of the scene's flows
+                # (port numbers mean nothing across hosts); mostly captured before anything else
+                f = frng.choice(flows)
+                other = frng.choice([5353, 1900, 50001, 3478, frng.randrange(1024, 61000)])
+                v6 = frng.random() < 0.3
+                ep2 = tcpcap.Endpoints(frng.randbytes(6), frng.randbytes(6), frng.randbytes(16 if v6 else 4), frng.randbytes(16 if v6 else 4), other, f.ep.cport, 0, 0)
+                tosrv = frng.random() < 0.7
+                frame = scene.udp_frame(ep2, "c" if tosrv else "s", pl)
+                where = f"between unknown hosts, {'to' if tosrv else 'from'} port {f.ep.cport} (the client port of {f.label}) {'from' if tosrv else 'to'} port {other}"
             else:
                 frame = scene.udp_noise(frng, 1, k % 20, v6=frng.random() < 0.4, port=port, payloads=[pl]).items[0].frame
-            pos = frng.randrange(0, len(items) + 1)
+            pos = frng.randrange(0, len(items) + 1) if k % 4 != 3 or frng.random() < 0.3 else 0
             its = list(items[:pos]) + [scene.Item(frame, conn=99, dir="c", tag="udp-noise")] + list(items[pos:])
             scene.stamp(its, random.Random(k), "plain")
             faults.append((f"UDP datagram of {len(pl)} bytes (first byte {pl[0]:#04x}) {where} inserted at {pos}", its, keys, ["-a"] if k % 3 == 0 else [], "foreign-rebased"))
